@@ -35,7 +35,7 @@ func litArg(c *ast.CallExpr, i int) string {
 	return "unknown:" + src(c)
 }
 
-func constString(f *ast.File, name string) string {
+func c17ConstString(f *ast.File, name string) string {
 	out := "unknown:" + name
 	ast.Inspect(f, func(n ast.Node) bool {
 		if vs, ok := n.(*ast.ValueSpec); ok {
@@ -79,8 +79,8 @@ func genNameFacts() (string, string) {
 	fmt.Fprintf(&b, "def normalize_cutset : String := %s\n", leanStr(cutset))
 	fmt.Fprintf(&b, "/-- the calls of NormalizeProjectName in source (pre-order) order -/\ndef normalize_calls : List String := [%s]\n", joinLean(calls))
 	cf := parse("consts/consts.go")
-	fmt.Fprintf(&b, "def const_ComposeProjectName : String := %s\n", leanStr(constString(cf, "ComposeProjectName")))
-	fmt.Fprintf(&b, "def const_ComposeDisableDefaultEnvFile : String := %s\n", leanStr(constString(cf, "ComposeDisableDefaultEnvFile")))
+	fmt.Fprintf(&b, "def const_ComposeProjectName : String := %s\n", leanStr(c17ConstString(cf, "ComposeProjectName")))
+	fmt.Fprintf(&b, "def const_ComposeDisableDefaultEnvFile : String := %s\n", leanStr(c17ConstString(cf, "ComposeDisableDefaultEnvFile")))
 	// withNamePrecedenceLoad: the conditions of the if / else-if chain of the returned closure
 	var conds []string
 	of := parse("cli/options.go")
